@@ -12,7 +12,10 @@ too (no classification is needed in this stream).
 
     case <n> exact <transform>
     p.set <obj> | p.del <key> | s.set <obj> | s.del <key>     one source change, processed to quiescence
+    p.reset <obj>* | s.reset <obj>*                           one atomic multi-event batch (`Reset`)
     start                                                     the derived collection is created (initial batch)
+    pause <obj> ... resume                                    the queue is held while the changes in between are
+                                                              made: schedule [env, ..., env, proc, ..., proc]
     lookup <ns>
 
 Answer of every line after `start`: `<sorted events of the step> | <contents>`.
@@ -26,29 +29,54 @@ structure XState where
   prim0   : List Obj := []
   sec0    : List Obj := []
   sys     : Sys := {}
+  /-- the collection's queue is held (`pause` ... `resume`): source changes only enqueue batches -/
+  paused  : Bool := false
+  /-- the queued batches in arrival order: `true` = primary -/
+  order   : List Bool := []
+  /-- state when the queue was held (the events of the whole block are printed at `resume`) -/
+  held    : Sys := {}
 
 def evTok : Event → String
   | .add k v => "A~" ++ k ++ "~" ++ v
   | .update k o n => "U~" ++ k ++ "~" ++ o ++ "~" ++ n
   | .delete k o => "D~" ++ k ++ "~" ++ o
 
+def insertEvByKey (e : Event) : List Event → List Event
+  | [] => [e]
+  | x :: l => if e.key < x.key then e :: x :: l else x :: insertEvByKey e l
+
+/-- stable sort by key only: events of one key keep their order (the order across keys inside one
+    batch is Go map order) -/
+def sortEvsByKey (l : List Event) : List Event := l.foldl (fun acc e => insertEvByKey e acc) []
+
+/-- the changes `StaticCollection.Reset(newState)` distributes, as one batch: Update (if not Equal) /
+    Add in the order of `newState`, then Delete of what is left -/
+def resetOps (cur objs : List Obj) : List SrcOp :=
+  (objs.filter (fun o => oget cur o.key != some o)).map SrcOp.set ++
+  ((cur.filter (fun o => (oget objs o.key).isNone)).map (fun o => SrcOp.del o.key))
+
 def showStep (before after : Sys) : String :=
-  let evs := (after.out.drop before.out.length).map evTok
-  let sorted := sortStrings evs
+  let sorted := (sortEvsByKey (after.out.drop before.out.length)).map evTok
   s!"e={sorted.length}" ++ String.join (sorted.map (fun t => " " ++ t)) ++ " | " ++ showMap after.col.outputs
 
 /-- one source change followed by the processing of the batch it produced -/
-def xApply (T : Transform) (s : Sys) (prim : Bool) (op : SrcOp) : Sys :=
-  if prim then step T (step T s (.envP [op])) .procP
-  else step T (step T s (.envS [op])) .procS
+def xApply (T : Transform) (s : Sys) (prim : Bool) (ops : List SrcOp) : Sys :=
+  if prim then step T (step T s (.envP ops)) .procP
+  else step T (step T s (.envS ops)) .procS
 
 def stepX (x : XState) (toks : List String) : XState × String :=
-  let change (prim : Bool) (op : SrcOp) : XState × String :=
-    if x.started then
-      let s' := xApply x.T x.sys prim op
+  let changes (prim : Bool) (ops : List SrcOp) : XState × String :=
+    if x.started && x.paused then
+      -- schedule [env, env, ..., proc, proc, ...]: only the environment step now
+      let s' := step x.T x.sys (if prim then .envP ops else .envS ops)
+      let queued := if prim then s'.qP.length > x.sys.qP.length else s'.qS.length > x.sys.qS.length
+      ({ x with sys := s', order := if queued then x.order ++ [prim] else x.order }, "ok")
+    else if x.started then
+      let s' := xApply x.T x.sys prim ops
       ({ x with sys := s' }, showStep x.sys s')
-    else if prim then ({ x with prim0 := srcStep x.prim0 op }, "ok")
-    else ({ x with sec0 := srcStep x.sec0 op }, "ok")
+    else if prim then ({ x with prim0 := srcSteps x.prim0 ops }, "ok")
+    else ({ x with sec0 := srcSteps x.sec0 ops }, "ok")
+  let change (prim : Bool) (op : SrcOp) : XState × String := changes prim [op]
   match toks with
   | "case" :: _ :: _ :: t :: _ =>
     match parseTransform t with
@@ -64,12 +92,29 @@ def stepX (x : XState) (toks : List String) : XState × String :=
     | none => (x, "bad-op")
     | some o => change false (.set o)
   | ["s.del", k] => change false (.del k)
+  | "p.reset" :: os =>
+    changes true (resetOps (if x.started then x.sys.prim else x.prim0) (os.filterMap parseObj))
+  | "s.reset" :: os =>
+    changes false (resetOps (if x.started then x.sys.sec else x.sec0) (os.filterMap parseObj))
   | ["start"] =>
     if x.started then (x, "bad-op") else
     let s0 : Sys := { sec := x.sec0 }
     -- `RegisterBatch(.., runExistingState = true)` on the primary: one batch of Adds
     let s1 := step x.T (step x.T s0 (.envP (x.prim0.reverse.map SrcOp.set))) .procP
     ({ x with started := true, sys := s1 }, showStep s0 s1)
+  | ["pause", o] =>
+    -- the queue worker is held inside the transformation of the blocker input `o`: that batch is
+    -- processed now (it reads the sources as they are now), its effects become visible at `resume`
+    match parseObj o with
+    | none => (x, "bad-op")
+    | some o =>
+      if !x.started || x.paused then (x, "bad-op") else
+      let s' := xApply x.T x.sys true [.set o]
+      ({ x with sys := s', paused := true, order := [], held := x.sys }, "ok")
+  | ["resume"] =>
+    if !x.paused then (x, "bad-op") else
+    let s' := x.order.foldl (fun s p => step x.T s (if p then .procP else .procS)) x.sys
+    ({ x with sys := s', paused := false, order := [] }, showStep x.held s')
   | ["lookup", ns] =>
     if x.started then (x, "lookup " ++ showMap (idxLookup x.sys.col ns)) else (x, "lookup not-started")
   | _ => (x, "bad-op")
